@@ -401,6 +401,14 @@ fn run_case_inner(case: &CorruptCase, cfg: SessionCfg, st: &mut Stats) -> Corrup
         st.absorb_sim(&s);
     }
     for rec in &se.recs {
+        if rec.api == "read_header(embedded)" {
+            st.inc("probe.embedded_stream_session");
+            if matches!(rec.outcome, Outcome::Ok) {
+                st.inc("probe.embedded_stream_opened");
+            }
+        }
+    }
+    for rec in &se.recs {
         let code = match &rec.outcome {
             Outcome::Ok => 1,
             Outcome::Err(e) => hash_str(e),
